@@ -46,7 +46,10 @@ class C12(object):
             "recomputed from the partial sums of the edited table; every case also draws from a generator object that "
             "is not a RandomState (any object with rand(): judged on the uniforms it handed out) and is offered "
             "generators without rand() (numpy's Generator, a bare object: a rejection is accepted, a returned sample is "
-            "judged, the object's own generator still decides the next draws)")
+            "judged, the object's own generator still decides the next draws); every case and every round ends with a "
+            "program of 3-9 generator-driven calls in arbitrary order on the one object (single and batched draws on its "
+            "own and on an outside generator, explicit numbers, re-seeding, saving/restoring the state, copies), judged "
+            "on the uniforms a reference generator in the same state hands out")
     tolerances = {'indices': 'exact'}
     exhaustive = {}
     modelled = ("IEEE-754 double addition is shared by CPython and the Lean runtime (trusted); theorems are over an "
@@ -111,7 +114,33 @@ class C12(object):
         case = {'pmf': [f2bits(p) for p in pmf], 'base': base, 'joint': joint, 'us': [f2bits(u) for u in us],
                 'seed': rng.randrange(2 ** 31), 'zeros': zs, 'kind': kind, 'big': rng.choice([130, 130, 257, 1000])}
         case['hist'] = self.gen_hist(rng, len(pmf), joint)
+        case['prog'] = self.gen_prog(rng)
         return case
+
+    # A program of generator-driven calls on ONE distribution object (no explicit numbers unless stated), in any order:
+    #   ['one']            d.rand()                    ['many', n]      d.rand(size=n)
+    #   ['ext_one']        d.rand(prng=g)              ['ext_many', n]  d.rand(size=n, prng=g)   (g: one outside generator)
+    #   ['explicit', u]    d.rand(rand=u)              (consumes nothing)
+    #   ['seed', s]        d.prng.seed(s)              ['save'] / ['restore']   get_state / set_state of d.prng
+    #   ['copy', sizes]    c = d.copy(); c.rand(size) for each size (None = single): the source's future draws
+    PROG_KINDS = ['one', 'one', 'one', 'many', 'many', 'seed', 'save', 'restore', 'copy', 'explicit', 'ext_one',
+                  'ext_many']
+
+    def gen_prog(self, rng):
+        ops = []
+        for _ in range(rng.randint(3, 9)):
+            k = rng.choice(self.PROG_KINDS)
+            if k in ('many', 'ext_many'):
+                ops.append([k, rng.choice([1, 2, 3, 5, 40])])
+            elif k == 'seed':
+                ops.append([k, rng.randrange(2 ** 31)])
+            elif k == 'copy':
+                ops.append([k, [rng.choice([None, None, 1, 3]) for _ in range(rng.randint(1, 4))]])
+            elif k == 'explicit':
+                ops.append([k, f2bits(rng.random())])
+            else:
+                ops.append([k])
+        return {'seed': rng.randrange(2 ** 31), 'ops': ops}
 
     # A history: the SAME object, already sampled, is changed (rounds of edits) and sampled again after every round.
     # Operations name stored outcomes by their position in the initial table and are interpreted on a plain
@@ -200,6 +229,15 @@ class C12(object):
                         c = dict(case)
                         c['hist'] = hist[:ri] + [dict(rd, ops=rd['ops'][:oi] + rd['ops'][oi + 1:])] + hist[ri + 1:]
                         yield c
+        prog = case.get('prog')
+        if prog and prog['ops']:
+            c = dict(case)
+            c['prog'] = None
+            yield c
+            for i in range(len(prog['ops'])):
+                c = dict(case)
+                c['prog'] = dict(prog, ops=prog['ops'][:i] + prog['ops'][i + 1:])
+                yield c
         us = case['us']
         if len(us) > 1:
             for i in range(len(us)):
@@ -348,6 +386,9 @@ class C12(object):
         # generators that are not RandomState objects
         if not r.oracle_fail:
             self.other_generators(case, d, lin, index, drv, r)
+        # a program of generator-driven calls in arbitrary order on the one object
+        if not r.oracle_fail and not r.mismatch:
+            self.run_program(case, d, lin, index, drv, r, '')
         # ---- correspondence
         if r.mismatch:
             pass
@@ -444,6 +485,96 @@ class C12(object):
                 r.oracle_fail = msg
                 return
 
+    def run_program(self, case, d, lin, index, drv, r, where):
+        """Single draws, batched draws, draws from an outside generator, explicit numbers, re-seeding, saving and
+        restoring the generator state and copies, interleaved on ONE object.  Reference, from the statement alone: a
+        generator of the same kind put into the same state (`ref`; for the outside generator `xref`) hands out the
+        uniforms the real generator is to hand out next -- n of them for a request of n draws, none for a request
+        with explicit numbers; seeding / saving / restoring is done to both; a copy continues from a clone of `ref`.
+        Every returned outcome must be the one whose cumulative interval contains its uniform (`judge`)."""
+        from canon import bits2f
+        prog = case.get('prog')
+        if not prog or not prog['ops']:
+            return
+        seed = prog['seed']
+
+        def idx(sample):
+            return [index.get(o, 'not-an-outcome:%r' % (o,)) for o in sample]
+
+        def clone(g):
+            h = np.random.RandomState()
+            h.set_state(g.get_state())
+            return h
+
+        def nxt(g, n):
+            return [float(x) for x in g.rand(n)]
+        ops = prog['ops']
+        groups = []
+        step = -1
+        try:
+            d.prng.seed(seed)
+            ref = np.random.RandomState(seed)
+            ext = np.random.RandomState((seed + 1) % (2 ** 32))
+            xref = np.random.RandomState((seed + 1) % (2 ** 32))
+            saved = None
+            for step, op in enumerate(ops):
+                k = op[0]
+                lab = 'step %d %s' % (step, op)
+                if k == 'one':
+                    groups.append((lab + ': d.rand()', idx([d.rand()]), nxt(ref, 1)))
+                elif k == 'many':
+                    groups.append((lab + ': d.rand(size=%d)' % op[1], idx(d.rand(size=op[1])), nxt(ref, op[1])))
+                elif k == 'ext_one':
+                    groups.append((lab + ': d.rand(prng=g)', idx([d.rand(prng=ext)]), nxt(xref, 1)))
+                elif k == 'ext_many':
+                    groups.append((lab + ': d.rand(size=%d, prng=g)' % op[1], idx(d.rand(size=op[1], prng=ext)),
+                                   nxt(xref, op[1])))
+                elif k == 'explicit':
+                    u = bits2f(op[1])
+                    groups.append((lab + ': d.rand(rand=u)', idx([d.rand(rand=u)]), [u]))
+                elif k == 'seed':
+                    d.prng.seed(op[1])
+                    ref.seed(op[1])
+                elif k == 'save':
+                    saved = (d.prng.get_state(), ref.get_state())
+                elif k == 'restore':
+                    if saved is not None:
+                        d.prng.set_state(saved[0])
+                        ref.set_state(saved[1])
+                elif k == 'copy':
+                    cp = d.copy()
+                    cref = clone(ref)
+                    for sz in op[1]:
+                        if sz is None:
+                            groups.append((lab + ': c = d.copy(); c.rand()', idx([cp.rand()]), nxt(cref, 1)))
+                        else:
+                            groups.append((lab + ': c = d.copy(); c.rand(size=%d)' % sz, idx(cp.rand(size=sz)),
+                                           nxt(cref, sz)))
+                else:
+                    raise ValueError(op)
+        except Exception as e:  # noqa
+            r.oracle_fail = where + 'program of generator-driven calls %s (d.prng seeded with %d) raised %s: %s at step %d' % (
+                ops, seed, type(e).__name__, e, step)
+            return
+        r.features.append('program')
+        for a, b in zip(ops, ops[1:]):
+            r.features.append('prog=%s>%s' % (a[0], b[0]))
+        for lab, got, uu in groups:
+            if len(got) != len(uu):
+                r.oracle_fail = where + 'program %s: %s returned %d draws' % (ops, lab, len(got))
+                return
+        msg = self.judge(lin, groups)
+        if msg:
+            r.oracle_fail = (where + 'program of generator-driven calls %s on one object (d.prng seeded with %d; u = the next '
+                             'uniform of a generator in the same state): %s' % (ops, seed, msg))
+            return
+        allu = [u for _, _, uu in groups for u in uu]
+        if allu:
+            _, want = drv.call('samplef', [[f2bits(p) for p in lin], [f2bits(u) for u in allu]])
+            got = [i for _, g_, _ in groups for i in g_]
+            if got != want:
+                r.mismatch = where + 'program %s: indices %s != model scan of the generator stream %s' % (ops, got, want)
+
     def outcome_of(self, case, i):
         return (i // 4, i % 4) if case['joint'] else i
 
@@ -535,6 +666,9 @@ class C12(object):
             elif bigs != scanf * reps:
                 r.mismatch = where + 'rand(size=%d, rand=us tiled) differs from the model scan' % len(big)
             if r.mismatch:
+                return
+            self.run_program(case, d, lin, index, drv, r, where)
+            if r.oracle_fail or r.mismatch:
                 return
 
     def apply_edit(self, case, d, table, op, applied, r):
